@@ -567,12 +567,13 @@ def inline_helpers(body, helpers, applied):
         if not changed: break
     return body
 
-def emit_clone_view(em, module, struct_name, fields, derived, report):
+def emit_clone_view(em, module, struct_name, fields, derived, report, manual=False):
     """M4: the field-wise clone that `#[derive(Clone)]` generates, as the trait's clone_view; a view whose Clone is hand-written
     (or absent) gets an unverified clone_view and is reported, so that C17 cannot be claimed proved for it"""
     start = em.lineno() + 1
     if not derived:
-        report.setdefault('clone_unverified', []).append(module)
+        # no Clone at all: the type cannot be cloned, the clone clause is vacuous for it (the trait method is a stub that nothing real corresponds to)
+        report.setdefault('clone_unverified' if manual else 'not_clonable', []).append(module)
         em.add('    #[verifier::external_body] fn clone_view(&self) -> (r: Self) { unimplemented!() }')
         return
     parts = []
@@ -675,7 +676,7 @@ def process_file(em, path, report):
                 applied |= ap
                 fns.append(dict(module=stem, fn=name, sha256=sha(fb), rules=sorted(ap), body_lines=fb.count('\n')))
             if is_trait:
-                emit_clone_view(em, stem, struct_name, struct_fields, derives_clone and not manual_clone, report)
+                emit_clone_view(em, stem, struct_name, struct_fields, derives_clone and not manual_clone, report, manual_clone)
                 applied.add('M4')
             if not is_trait and getters:
                 applied.add('M3')
